@@ -93,6 +93,8 @@ func HttpErrors() int                          { panic("intrinsic") }
 func HttpErrorCode(i int) int                  { panic("intrinsic") }
 func Lifecycle() string                        { panic("intrinsic") }
 func IgnoreGo()                                { panic("intrinsic") }
+func SchedulerCapacity(k int)                  { panic("intrinsic") }
+func SchedulerRan()                            { panic("intrinsic") }
 func SchedulerMayRefuse()                      { panic("intrinsic") }
 // GinContext: wildcards are the catch-all route parameters (*name), which gin delivers with a leading "/".
 func GinContext(method string, wildcards ...string) *gin.Context { panic("intrinsic") }
